@@ -99,6 +99,42 @@ def _mutable_defaults(ck: Check, prog: Program) -> None:
                                f'the mutable default `{p.arg}={norm(d)}` is shared by all calls/instances and is mutated at {b}: state leaks '
                                f'between dispatchers / requests')
     ck.require('MUT-DEFAULT', 'mutable default arguments in the package', n, 3)
+    # the same hazard without a parameter: a module- or class-level mutable object handed out as the value of a per-request object
+    # (`json_data.get('params', NO_PARAMS)`): every message deserialised without the member shares it, and whoever appends to one
+    # request's params changes all later ones
+    n_f = 0
+    for f in prog.iter_funcs():
+        if not f.module.name.startswith('pjrpc.common') or f.name != 'from_json' or not isinstance(f.node, (ast.FunctionDef, ast.AsyncFunctionDef)):
+            continue
+        for x in walk_own(f.node):
+            cands: List[ast.expr] = []
+            if isinstance(x, ast.Call) and isinstance(x.func, ast.Attribute) and x.func.attr in ('get', 'pop', 'setdefault') and len(x.args) == 2:
+                cands.append(x.args[1])
+            elif isinstance(x, ast.BoolOp) and isinstance(x.op, ast.Or):
+                cands += list(x.values[1:])
+            for d in cands:
+                if not isinstance(d, (ast.Name, ast.Attribute)):
+                    continue
+                n_f += 1
+                ent = prog.resolve(f.module, d, f.cls)
+                val = None
+                if isinstance(d, ast.Name):
+                    b = f.module.ns.get(d.id)
+                    if b is not None and b.kind == 'assign' and isinstance(b.target, ast.AST):
+                        val = b.target
+                elif isinstance(d, ast.Attribute) and dotted(d.value) in ('cls', 'self') and f.cls is not None:
+                    for c in [c for c in prog.mro(f.cls) if isinstance(c, ClassInfo)]:
+                        if d.attr in c.attrs:
+                            val = c.attrs[d.attr]
+                            break
+                if isinstance(val, (ast.List, ast.Dict, ast.Set)) or isinstance(val, ast.Call) and dotted(val.func) in ('list', 'dict', 'set'):
+                    ck.finding('MUT-DEFAULT', f.qualname, f'shared mutable fallback `{norm(d)}`', f.module.rel, x.lineno,
+                               f'`{norm(x)[:80]}` falls back to `{norm(d)}`, one `{norm(val)}` object bound at {"class" if isinstance(d, ast.Attribute) else "module"} level: '
+                               f'every message deserialised without that member carries the SAME object, so an in-place change made while serving '
+                               f'one request (a middleware appending to request.params) is seen by every later request, and what was put there stays '
+                               f'referenced for the life of the process')
+    ck.ob('MUT-DEFAULT', f'{n_f} named fallbacks of the deserialisers are not shared mutable objects',
+          not any(f_.rule == 'MUT-DEFAULT' and 'fallback' in f_.construct for f_ in ck.findings), nontrivial=n_f > 0)
 
 
 def _registry_writes(ck: Check, prog: Program) -> None:
